@@ -29,26 +29,23 @@ theorem plain_attrOk_spec (m : Mode) (rrf : Bool) (el a : Str) :
 theorem plain_schemeList_spec (m : Mode) (rrf : Bool) (el a : Str) :
     Spec.HtmlPolicy.schemeList lists (plain (some m) rrf) el a = Spec.HtmlAllow.schemeList m el a := by
   cases m <;>
-  simp [Spec.HtmlPolicy.schemeList, plain, schemeCtx, attrSchemes, isOverride, Cfg.useStrict,
-      Cfg.useCompat, lists, Spec.HtmlAllow.schemeList]
+  simp [Spec.HtmlPolicy.schemeList, plain, cell, modeCounts, lists, Spec.HtmlAllow.schemeList]
 
 /-- … the value restrictions are the spec's scheme lists (`matrix:` only in compat mode). -/
 theorem plain_valueOk_spec (m : Mode) (rrf : Bool) (el a v : Str) :
     valueOk lists (plain (some m) rrf) el a v = valueAllowed m el a v := by
   unfold valueOk valueAllowed
   rw [plain_schemeList_spec]
-  have : denied (plain (some m) rrf) el a v = false := by simp [denied, plain, schemesHit]
+  have : denied (plain (some m) rrf) el a v = false := by simp [denied, plain]
   rw [this]
   cases Spec.HtmlAllow.schemeList m el a with
-  | none => simp [schemesPass]
-  | some l => simp only [schemesPass, Bool.not_false, Bool.true_and]; rfl
+  | none => simp
+  | some l => simp only [Bool.not_false, Bool.true_and]; rfl
 
 /-- … the allowed classes are `language-*` on `code`. -/
 theorem plain_classOk_spec (m : Mode) (rrf : Bool) (el cl : Str) :
     classOk lists (plain (some m) rrf) el cl = classAllowed el cl := by
-  simp only [classOk, plain, isOverride, Cfg.useStrict, lists, classAllowed, row, removedClass,
-    Option.bind_none, Option.isSome_none, Option.isSome_some, Bool.or_true, Bool.not_true,
-    Bool.false_or, Bool.not_false, Bool.true_and, if_true, Option.getD_none, List.nil_append]
+  simp [classOk, plain, modeCounts, lists, classAllowed, row, Spec.HtmlGlob.matchesAny]
 
 /-- … the maximum depth is 100. -/
 theorem plain_maxDepth_spec (m : Mode) (rrf : Bool) :
